@@ -14,6 +14,7 @@ import (
 	"go/token"
 	"os"
 	"os/exec"
+	"os/signal"
 	"path/filepath"
 	"regexp"
 	"strconv"
@@ -506,6 +507,18 @@ func main() {
 	if *procBin == "" {
 		vcommon.Infra("need -proc")
 	}
+	// The processes under test must start with the default disposition of SIGINT. A check started
+	// from a background job or under nohup has SIGINT ignored, and an ignored signal stays
+	// ignored across fork and exec: a launcher that has no handler yet would then swallow the
+	// daemon's signal instead of dying from it. A signal that is *caught* here is reset to the
+	// default in every process started from here.
+	sigc := make(chan os.Signal, 1)
+	signal.Notify(sigc, os.Interrupt)
+	go func() {
+		<-sigc
+		vcommon.Cleanup()
+		os.Exit(130)
+	}()
 	work, err := vcommon.TempDir("", "c20")
 	if err != nil {
 		vcommon.Infra("%v", err)
